@@ -445,6 +445,16 @@ class VariantReach:
                     env.pop(dst["l"], None)
                 continue
             v = self._rv_variant(env, s["rv"])
+            rv = s["rv"]
+            if not v and rv["k"] == "use" and "const" in rv["op"] and rv["op"]["const"].get("int") in (0, 1) \
+                    and body.local_ty(dst["l"]) == "bool":
+                # a boolean flag set to a constant (`embedded = true`) is carried like the result of `is_some()`
+                v = ("#true",) if rv["op"]["const"]["int"] == 1 else ("#false",)
+            elif not v and rv["k"] == "unop" and rv["op"] == "Not":
+                p = rv["a"].get("copy") or rv["a"].get("move")
+                cur = env.get(p["l"]) if p is not None and not p["p"] else None
+                if cur in (("#true",), ("#false",)):
+                    v = ("#false",) if cur == ("#true",) else ("#true",)
             if v:
                 env[dst["l"]] = v
             else:
